@@ -6,7 +6,6 @@ import (
 	"go/types"
 	"os"
 
-	"golang.org/x/tools/go/ssa"
 
 	"verif/sa/boolfn"
 	"verif/sa/core"
@@ -55,31 +54,8 @@ func c05PrefixV6Exact(c *Ctx) bool {
 		for i := 0; i < nt; i++ {
 			in.Elems[L-nt+i] = ev.Const(int64(tail[i]), 8, false).Bits
 		}
-		ev.OnCall = func(name string, call *ssa.CallCommon, args []boolfn.Val) (boolfn.Val, bool) {
-			switch name {
-			case "net/netip.AddrFrom16":
-				if len(args) == 1 && args[0].Kind == boolfn.KArray {
-					return args[0], true
-				}
-			case "(net/netip.Addr).BitLen":
-				if len(args) == 1 && args[0].Kind == boolfn.KArray && len(args[0].Elems) == 16 {
-					return ev.Const(128, 64, true), true
-				}
-			case "net/netip.PrefixFrom":
-				if len(args) == 2 && args[0].Kind == boolfn.KArray && len(args[0].Elems) == 16 && args[1].Kind == boolfn.KBits {
-					el := append([][]int(nil), args[0].Elems...)
-					bits := args[1].Bits
-					for i := 8; i < len(bits); i++ {
-						if bits[i] != 0 {
-							return boolfn.Val{}, false
-						}
-					}
-					el = append(el, bits[:8])
-					return boolfn.Val{Kind: boolfn.KArray, Elems: el}, true
-				}
-			}
-			return boolfn.Val{}, false
-		}
+		nm := &netipModel{ev: ev, fresh: 1 << 20}
+		ev.OnCall = nm.OnCall
 		rs, err := ev.Call(f, []boolfn.Val{in})
 		if err != nil || len(rs) != 2 || rs[1].Kind != boolfn.KBits || len(rs[1].Bits) != 1 {
 			if os.Getenv("GSA_DBG") != "" {
@@ -140,13 +116,17 @@ func c05PrefixV6Exact(c *Ctx) bool {
 		}
 		nAccept++
 		// decoded value
-		if rs[0].Kind != boolfn.KArray || len(rs[0].Elems) != 17 {
-			bad = &res{false, sprintf("length %d: the result is not PrefixFrom(16-byte address, bits)", L)}
+		if rs[0].Kind != boolfn.KArray || len(rs[0].Elems) != 18 {
+			bad = &res{false, sprintf("length %d: the result is not PrefixFrom(address, bits)", L)}
+			break
+		}
+		if m.And(accept, m.Not(rs[0].Elems[16][1])) != 0 {
+			bad = &res{false, sprintf("length %d: the address of the prefix is not an IPv6 address", L)}
 			break
 		}
 		wantBits := ev.Const(int64(4*k), 8, false).Bits
 		for b := 0; b < 8 && bad == nil; b++ {
-			if m.And(accept, m.Xor(rs[0].Elems[16][b], wantBits[b])) != 0 {
+			if m.And(accept, m.Xor(rs[0].Elems[17][b], wantBits[b])) != 0 {
 				bad = &res{false, sprintf("length %d (%d labels): the prefix length is not %d", L, k, 4*k)}
 			}
 		}
@@ -207,12 +187,11 @@ func strConstOf(c *Ctx, pkg, name string) (string, bool) {
 	return constant.StringVal(k.Val()), true
 }
 
-// v4LabelExact decides isIPv4Label exactly for ASCII labels of every length
-// 0..6: the predicate is evaluated on l symbolic bytes (top bit clear) and
-// compared with "decimal 0..255 without a leading zero" as a Boolean function
-// — digit tests, accumulation (in whatever integer type) and the final range
-// test included.  Bytes >= 0x80 are left to the structural rule: they are no
-// digits under any decoding.
+// v4LabelExact decides isIPv4Label exactly for labels of every length 0..6:
+// the predicate is evaluated on l symbolic bytes (a `range` over the string
+// decodes UTF-8 as the language does) and compared with "decimal 0..255
+// without a leading zero" as a Boolean function — digit tests, accumulation
+// (in whatever integer type) and the final range test included.
 func v4LabelExact(c *Ctx, prop string) bool {
 	rule := prop + ".v4.label-exact"
 	f := c.fn("netutil", "isIPv4Label")
@@ -223,12 +202,9 @@ func v4LabelExact(c *Ctx, prop string) bool {
 	var fail *bad
 	for l := 0; l <= 6 && fail == nil; l++ {
 		m := boolfn.New()
-		ev := &boolfn.Eval{M: m, Entered: map[string]bool{}, ErrorsAsBits: true}
+		ev := &boolfn.Eval{M: m, Entered: map[string]bool{}, ErrorsAsBits: true, ForcePath: true, Steps: 1000000}
 		ev.InScope = core.InModule
 		in := ev.StringInput(0, l)
-		for i := range in.Elems {
-			in.Elems[i][7] = 0
-		}
 		rs, err := ev.Call(f, []boolfn.Val{in})
 		if err != nil || len(rs) != 1 || rs[0].Kind != boolfn.KBits || len(rs[0].Bits) != 1 {
 			if os.Getenv("GSA_DBG") != "" {
@@ -280,6 +256,285 @@ func v4LabelExact(c *Ctx, prop string) bool {
 		c.check(false, rule, f, what, nil, fail.why)
 		return true
 	}
-	c.check(true, rule, f, what, nil, "equal as Boolean functions for every ASCII label of 0..6 bytes (2^7l inputs per length)")
+	c.check(true, rule, f, what, nil, "equal as Boolean functions for every label of 0..6 bytes (all 2^8l labels per length)")
+	return true
+}
+
+// c05PrefixV4Exact decides the IPv4 side of PrefixFromReversedAddr exactly for
+// every name length: subnetFromReversedV4 (with ipv4NetFromReversed and
+// ipv4FromReversed behind it) is evaluated path by path on a name of L bytes
+// whose last 12 are "in-addr.arpa" (what the dispatcher has tested) and whose
+// other bytes are free, under the decoder's documented precondition — the
+// name is a valid domain name: it does not start with a dot and has no empty
+// label.  The library scanners (Count, HasSuffix, LastIndexByte, ParseUint,
+// netip.ParseAddr) have their exact meaning on symbolic bytes (boolfn/scan.go,
+// netipmodel.go).  The verdict must be
+//
+//	err == nil  <=>  the free part is empty, or is k <= 4 decimal octets 0..255
+//	                 without leading zeros, dot-separated, followed by a dot
+//	and then    prefix length 8k, octet j of the address == label k-1-j (from
+//	            the left), zero beyond k
+func c05PrefixV4Exact(c *Ctx) bool {
+	const rule = "C05.v4.prefix-exact"
+	f := c.fn("netutil", "subnetFromReversedV4")
+	if f == nil || len(f.Params) != 1 {
+		return false
+	}
+	suffix := ".in-addr.arpa"
+	if s, ok := strConstOf(c, "netutil", "arpaV4Suffix"); ok && len(s) > 1 {
+		suffix = s
+	}
+	tail := suffix[1:]
+	nt := len(tail)
+	maxL := nt + 16 + 3
+	var bad string
+	nAccept, nReject, entered := 0, 0, 0
+	for L := nt; L <= maxL && bad == ""; L++ {
+		m := boolfn.New()
+		ev := &boolfn.Eval{M: m, Entered: map[string]bool{}, ErrorsAsBits: true, ForcePath: true, Steps: 4000000}
+		ev.InScope = core.InModule
+		in := ev.StringInput(0, L)
+		for i := 0; i < nt; i++ {
+			in.Elems[L-nt+i] = ev.Const(int64(tail[i]), 8, false).Bits
+		}
+		nm := &netipModel{ev: ev, fresh: 1 << 20}
+		ev.OnCall = nm.OnCall
+		{
+			// precondition: a valid domain name (no leading dot, no empty label)
+			isDot := func(bits []int) int {
+				eq := 1
+				for k := 0; k < 8; k++ {
+					bit := bits[k]
+					if ('.'>>uint(k))&1 == 0 {
+						bit = m.Not(bit)
+					}
+					eq = m.And(eq, bit)
+				}
+				return eq
+			}
+			pre := 1
+			for i := 0; i < L-nt; i++ {
+				if i == 0 {
+					pre = m.And(pre, m.Not(isDot(in.Elems[0])))
+				} else {
+					pre = m.And(pre, m.Not(m.And(isDot(in.Elems[i-1]), isDot(in.Elems[i]))))
+				}
+			}
+			ev.Assume = pre
+		}
+		rs, err := ev.Call(f, []boolfn.Val{in})
+		if err != nil || len(rs) != 2 || rs[1].Kind != boolfn.KBits || len(rs[1].Bits) != 1 {
+			if os.Getenv("GSA_DBG") != "" {
+				fmt.Fprintln(os.Stderr, "exact v4 prefix decoder: L =", L, err)
+			}
+			c.L.Notef("subnetFromReversedV4 is outside the exact evaluator's grammar at length %d (%v); structural rules used instead", L, err)
+			return false
+		}
+		entered = len(ev.Entered)
+		n := L - nt // free bytes
+		isByte := func(bits []int, v int) int {
+			eq := 1
+			for k := 0; k < 8; k++ {
+				bit := bits[k]
+				if (v>>uint(k))&1 == 0 {
+					bit = m.Not(bit)
+				}
+				eq = m.And(eq, bit)
+			}
+			return eq
+		}
+		// precondition: a valid domain name in lower case
+		pre := 1
+		for i := 0; i < n; i++ {
+			if i == 0 {
+				pre = m.And(pre, m.Not(isByte(in.Elems[0], '.')))
+			} else {
+				pre = m.And(pre, m.Not(m.And(isByte(in.Elems[i-1], '.'), isByte(in.Elems[i], '.'))))
+			}
+		}
+		accept := 0
+		wantAddr := zeroBytes(4)
+		wantBits := make([]int, 8)
+		if n == 0 {
+			accept = 1
+		} else {
+			lastDot := isByte(in.Elems[n-1], '.')
+			for k := 1; k <= 4; k++ {
+				nm.labels(in.Elems, 0, n-1, k, func(cond int, vals [][]int) {
+					cnd := m.And(cond, lastDot)
+					if cnd == 0 {
+						return
+					}
+					accept = m.Or(accept, cnd)
+					for j := 0; j < k; j++ {
+						for b := 0; b < 8; b++ {
+							wantAddr[j][b] = m.Or(wantAddr[j][b], m.And(cnd, vals[k-1-j][b]))
+						}
+					}
+					pl := ev.Const(int64(8*k), 8, false).Bits
+					for b := 0; b < 8; b++ {
+						wantBits[b] = m.Or(wantBits[b], m.And(cnd, pl[b]))
+					}
+				})
+			}
+		}
+		accept = m.And(accept, pre)
+		got := m.And(m.Not(rs[1].Bits[0]), pre)
+		if got != accept {
+			w := m.Witness(m.Xor(got, accept))
+			kind := "refused though it is k <= 4 decimal octets followed by " + tail
+			if x := m.And(got, m.Not(accept)); x != 0 {
+				w, kind = m.Witness(x), "accepted though it is not a sequence of at most four decimal octets 0..255 without leading zeros followed by the label(s) "+tail
+			}
+			bad = sprintf("length %d: the name %s is %s", L, witnessName(w, n, n)+"+"+tail, kind)
+			break
+		}
+		if accept == 0 {
+			nReject++
+			continue
+		}
+		nAccept++
+		if rs[0].Kind != boolfn.KArray || len(rs[0].Elems) != 18 {
+			bad = sprintf("length %d: the result is not PrefixFrom(address, bits)", L)
+			break
+		}
+		if m.And(accept, m.Not(rs[0].Elems[16][0])) != 0 {
+			bad = sprintf("length %d: the address of the prefix is not an IPv4 address", L)
+			break
+		}
+		for b := 0; b < 8 && bad == ""; b++ {
+			if d := m.And(accept, m.Xor(rs[0].Elems[17][b], wantBits[b])); d != 0 {
+				bad = sprintf("length %d: for the name %s the prefix length is not 8 per label", L, witnessName(m.Witness(d), n, n)+"+"+tail)
+			}
+		}
+		for j := 0; j < 4 && bad == ""; j++ {
+			for b := 0; b < 8; b++ {
+				if d := m.And(accept, m.Xor(rs[0].Elems[j][b], wantAddr[j][b])); d != 0 {
+					bad = sprintf("length %d: for the name %s octet %d of the address is not the label it belongs to", L, witnessName(m.Witness(d), n, n)+"+"+tail, j)
+					break
+				}
+			}
+		}
+	}
+	c.L.Floor(rule, 1)
+	what := "accepts exactly k <= 4 decimal octet labels followed by " + tail + " and decodes them"
+	if bad != "" {
+		c.check(false, rule, f, what, nil, bad)
+		return true
+	}
+	c.check(true, rule, f, what, nil,
+		sprintf("every name length %d..%d evaluated with all other bits free (names without empty labels): %d lengths with accepted names (language and decoded prefix equal to the codec's), %d lengths rejected outright; %d functions evaluated", nt, maxL, nAccept, nReject, entered))
+	return true
+}
+
+// v4ScannerExact decides isValidIPv4String exactly: for every length 0..18
+// the scanner is evaluated path by path on symbolic bytes (strings.Cut,
+// IndexByte & co. with their exact meaning) and its verdict compared, as a
+// Boolean function, with the dotted-quad grammar of netip.ParseAddr.
+func v4ScannerExact(c *Ctx) bool {
+	const rule = "C02.v4.scanner-exact"
+	f := c.fn("netutil", "isValidIPv4String")
+	if f == nil || len(f.Params) != 1 {
+		return false
+	}
+	bad := ""
+	for L := 0; L <= 18 && bad == ""; L++ {
+		m := boolfn.New()
+		ev := &boolfn.Eval{M: m, Entered: map[string]bool{}, ErrorsAsBits: true, ForcePath: true, Steps: 4000000}
+		ev.InScope = core.InModule
+		in := ev.StringInput(0, L)
+		nm := &netipModel{ev: ev, fresh: 1 << 20}
+		ev.OnCall = nm.OnCall
+		rs, err := ev.Call(f, []boolfn.Val{in})
+		if err != nil || len(rs) != 1 || rs[0].Kind != boolfn.KBits || len(rs[0].Bits) != 1 {
+			if os.Getenv("GSA_DBG") != "" {
+				fmt.Fprintln(os.Stderr, "exact isValidIPv4String: L =", L, err)
+			}
+			c.L.Notef("isValidIPv4String is outside the exact evaluator's grammar at length %d (%v)", L, err)
+			return false
+		}
+		want, _ := nm.parseV4(in.Elems)
+		if rs[0].Bits[0] != want {
+			d := m.Xor(rs[0].Bits[0], want)
+			kind := "rejected though netip.ParseAddr accepts it"
+			if x := m.And(rs[0].Bits[0], m.Not(want)); x != 0 {
+				d, kind = x, "accepted though it is not four decimal fields 0..255 without leading zeros"
+			}
+			bad = sprintf("the text %s is %s", witnessName(m.Witness(d), L, L), kind)
+		}
+	}
+	c.L.Floor(rule, 1)
+	what := "isValidIPv4String(s) <=> s is a dotted quad as netip.ParseAddr reads it"
+	if bad != "" {
+		c.check(false, rule, f, what, nil, bad)
+		return true
+	}
+	c.check(true, rule, f, what, nil, "equal as Boolean functions for every text of 0..18 bytes (all 2^8L texts per length)")
+	return true
+}
+
+// c04V4DecodeExact decides ipv4FromReversed exactly: for every length 0..18
+// of the address part, accepted <=> dotted quad (as netip.ParseAddr reads it),
+// and the decoded address is the four octets in reverse order.
+func c04V4DecodeExact(c *Ctx) bool {
+	const rule = "C04.v4.decode-exact"
+	f := c.fn("netutil", "ipv4FromReversed")
+	if f == nil || len(f.Params) != 1 {
+		return false
+	}
+	bad := ""
+	for L := 0; L <= 18 && bad == ""; L++ {
+		m := boolfn.New()
+		ev := &boolfn.Eval{M: m, Entered: map[string]bool{}, ErrorsAsBits: true, ForcePath: true, Steps: 1000000}
+		ev.InScope = core.InModule
+		in := ev.StringInput(0, L)
+		nm := &netipModel{ev: ev, fresh: 1 << 20}
+		ev.OnCall = nm.OnCall
+		rs, err := ev.Call(f, []boolfn.Val{in})
+		if err != nil || len(rs) != 2 || rs[1].Kind != boolfn.KBits || len(rs[1].Bits) != 1 {
+			if os.Getenv("GSA_DBG") != "" {
+				fmt.Fprintln(os.Stderr, "exact ipv4FromReversed: L =", L, err)
+			}
+			c.L.Notef("ipv4FromReversed is outside the exact evaluator's grammar at length %d (%v)", L, err)
+			return false
+		}
+		want, octets := nm.parseV4(in.Elems)
+		got := m.Not(rs[1].Bits[0])
+		if got != want {
+			d := m.Xor(got, want)
+			kind := "refused though it is a dotted quad"
+			if x := m.And(got, m.Not(want)); x != 0 {
+				d, kind = x, "decoded though it is not four decimal fields 0..255 without leading zeros"
+			}
+			bad = sprintf("the address part %s is %s", witnessName(m.Witness(d), L, L), kind)
+			break
+		}
+		if want == 0 {
+			continue
+		}
+		if rs[0].Kind != boolfn.KArray || len(rs[0].Elems) != 17 {
+			bad = "the result is not an address"
+			break
+		}
+		if m.And(want, m.Not(rs[0].Elems[16][0])) != 0 {
+			bad = "the decoded address is not an IPv4 address"
+			break
+		}
+		for j := 0; j < 4 && bad == ""; j++ {
+			for b := 0; b < 8; b++ {
+				if d := m.And(want, m.Xor(rs[0].Elems[j][b], octets[3-j][b])); d != 0 {
+					bad = sprintf("for %s octet %d of the address is not field %d of the name", witnessName(m.Witness(d), L, L), j, 3-j)
+					break
+				}
+			}
+		}
+	}
+	c.L.Floor(rule, 1)
+	what := "ipv4FromReversed decodes exactly the dotted quads, octets reversed"
+	if bad != "" {
+		c.check(false, rule, f, what, nil, bad)
+		return true
+	}
+	c.check(true, rule, f, what, nil, "accepted set and decoded bytes equal the codec's for every text of 0..18 bytes")
 	return true
 }
